@@ -9,7 +9,7 @@ variable {V I : Type}
 
 /-! ### from the Boolean checks to usable facts -/
 
-theorem eff_default (spec : Spec) (g : Nat) (h : spec.length ≤ g) : eff spec g = {} := by
+theorem eff_default (spec : Spec) (g : Nat) (h : spec.length ≤ g) : eff spec g = noEff := by
   unfold eff; rw [List.getD_eq_getElem?_getD, List.getElem?_eq_none h]; rfl
 
 theorem allG_spec {spec : Spec} {f : Nat → Eff → Bool} (h : allG spec f = true) (g : Nat)
@@ -28,7 +28,7 @@ theorem sorted_of_B {spec : Spec} (h : sortedB spec = true) : Sorted spec := by
     rw [List.all_eq_true] at this
     exact of_decide_eq_true (this d hd)
   · rw [eff_default spec g (Nat.le_of_not_lt hg)] at hd
-    simp at hd
+    simp [noEff] at hd
 
 structure NoClobber (spec : Spec) : Prop where
   cache : ∀ g, (eff spec g).clobbers = []
